@@ -261,6 +261,8 @@ def run(ctx):
         if rv and rv["k"] == "agg" and rv["kind"].get("var") == "OneByteEncoding":
             if any(k.startswith("match:") for k in lib.slice_matches(gfe, bi)):
                 continue
+            if any(lib.lookup_field(gfe, rv["ops"][0], lk) is not None for lk in lib.table_lookups(F, gfe)):
+                continue        # chosen by name in a table of (name, table) pairs
             fallbacks += 1
             if not any(c.bb == bi or gfe.dominates(c.bb, bi) for c in tu_der if c in gfe.calls):
                 unasked.append(st_["ln"])
